@@ -126,9 +126,35 @@ def stixdt_kwargs(doc, ver):
     return kw
 
 
-def run_library(doc, ver, route):
+FOREIGN_UUIDS = ["e4b1c2d0-7e2c-11ea-bc55-0242ac130003", "a2c1f5a0-1d2c-11ec-9621-0242ac130002", "886313e1-3b8a-5372-9b90-0c9aee199e5d",
+                 "6fa459ea-ee8a-3ca4-894e-db77e160355e"]       # UUIDv1, v1, v5, v3: legal in 2.1 identifiers, not in 2.0
+
+
+def run_library(doc, ver, route, targets=None):
     import stix2
     from stix2 import registry
+    if route == "constructor-built-refs":
+        # every reference listed in `targets` handed over as the already-built 2.1 object it names (reference properties take objects)
+        built = {}
+        for tid, tdoc in (targets or {}).items():
+            o, exc = core.guarded(stix2.parse, tdoc, allow_custom=False, version="2.1")
+            if exc is not None or isinstance(o, dict):
+                return None, ValueError("target not constructible")
+            built[tid] = o
+        t = doc.get("type")
+        cls = registry.class_for_type(t, ver, "objects") or registry.class_for_type(t, ver, "observables")
+        if cls is None:
+            return None, ValueError("no class")
+        kw = {}
+        for k, v in doc.items():
+            if k == "type":
+                continue
+            if isinstance(v, str) and v in built:
+                v = built[v]
+            elif isinstance(v, list):
+                v = [built.get(x, x) if isinstance(x, str) else x for x in v]
+            kw[k] = v
+        return core.guarded(cls, **kw)
     if route == "constructor-stixdt":
         t = doc.get("type")
         cls = registry.class_for_type(t, ver, "objects") or registry.class_for_type(t, ver, "observables")
@@ -177,7 +203,7 @@ def check_case(case):
     for mod, _ in saved:
         mod.get_timestamp = lambda now=now: now
     try:
-        obj, exc = run_library(cur, ver, route)
+        obj, exc = run_library(cur, ver, route, case.get("targets"))
     finally:
         for mod, fn in saved:
             mod.get_timestamp = fn
@@ -245,6 +271,40 @@ def base_doc(draw):
     return ver, draw(G.valid_object(ver, opts=opts)), shape
 
 
+@st.composite
+def built_refs_case(draw):
+    """A valid 2.0 object whose top-level references are re-pointed at 2.1 objects that carry identifiers legal only in 2.1."""
+    import re
+    doc = draw(G.valid_object("2.0", opts=dict(OPTS, maximal=True)))
+    types21 = set(G.top_types("2.1"))
+    targets = {}
+    out = {}
+    idre = re.compile(r"^([a-z][a-z0-9-]*)--[0-9a-fA-F-]{36}$")
+
+    def repoint(x):
+        m = idre.match(x) if isinstance(x, str) else None
+        if not m or m.group(1) not in types21:
+            return x
+        t = m.group(1)
+        nid = "%s--%s" % (t, draw(st.sampled_from(FOREIGN_UUIDS)))
+        if nid not in targets:
+            tdoc = draw(G.valid_object("2.1", type_=t, opts=dict(OPTS, minimal=True)))
+            if tdoc.get("definition_type") == "tlp":
+                return x
+            tdoc = dict(tdoc, id=nid)
+            tdoc.pop("granular_markings", None)
+            targets[nid] = tdoc
+        return nid
+    for k, v in doc.items():
+        if k.endswith("_ref") and k != "id":
+            out[k] = repoint(v)
+        elif k.endswith("_refs") and isinstance(v, list):
+            out[k] = [repoint(x) for x in v]
+        else:
+            out[k] = v
+    return {"ver": "2.0", "doc": out, "corruptions": [], "route": "constructor-built-refs", "targets": targets}
+
+
 def run(ctx):
     ctx.level = "fault_enumeration"
     ctx.rule = ("valid base objects of every type/version from the spec-model generator (minimal / maximal / random) x EVERY single-point "
@@ -304,6 +364,15 @@ def run(ctx):
     # every type of both versions gets its share: the type is drawn first, uniformly
     types = [(v, t) for v in ("2.0", "2.1") for t in G.top_types(v)]
 
+    def body_built(case):
+        if not case["targets"]:
+            ctx.exclude("no-repointable-reference")
+            return
+        fails = check_case(case)
+        ctx.note(case, True, ["route:constructor-built-refs", "type:2.0/%s" % case["doc"]["type"], "targets:%d" % min(3, len(case["targets"]))],
+                 fp=core.fingerprint([case["doc"]["type"], sorted(k for k, v in case["doc"].items() if k.endswith(("_ref", "_refs")))]))
+        ctx.handle(case, fails)
+
     @st.composite
     def typed_doc(draw, ver_t):
         ver, t = ver_t
@@ -320,6 +389,9 @@ def run(ctx):
     for ver_t in types + [("2.0", "observed-data")] * 3:
         strat = st.tuples(typed_doc(ver_t), st.integers(0, 10 ** 6), st.sampled_from(["parse", "parse", "parse", "parse-auto", "parse-auto", "constructor", "constructor", "constructor-tuples"]))
         core.run_given(ctx, strat, body, per_type, label="c02-systematic-%s-%s" % ver_t, rounds=3)
+
+    # 2.0 objects referring to already-built 2.1 objects whose identifiers are legal only in 2.1
+    core.run_given(ctx, built_refs_case(), body_built, ctx.n(150, 1500), label="c02-built-refs")
 
     # the eight fixed TLP instances, every corruption, every route (finite: enumerated completely)
     ctx.collect_only = True
